@@ -256,6 +256,20 @@ def explore(ctx):
             if got != table:
                 fails.append('custom positions are not used as given')
             fails += [f for f in statement_oracle(d, p2, keyfn, reverse, custom=True)]
+            # history on one plotter: sort, place by hand, sort again with the same key and direction - the sorted
+            # layout must be back
+            p3 = d.plotter()
+            for _round in range(2):
+                if mode == 'default':
+                    p3.sort(reverse=reverse)
+                else:
+                    p3.sort(sort_key=keyfn, reverse=reverse)
+                if _round == 0:
+                    p3.set_custom_positions(lambda s: table[s.idx])
+            back = {int(s.idx): float(x) for s, x in p3._cached_positions.items()}
+            want = {int(s.idx): float(x) for s, x in p._cached_positions.items()}
+            if back != want:
+                fails.append('sort() after set_custom_positions() leaves positions %s, a sorted plotter has %s' % (sorted(back.items()), sorted(want.items())))
         except Exception as e:
             fails.append('custom positions raised %r' % (e,))
         if fails:
